@@ -69,13 +69,13 @@ def dag_zero_flow_instances(tier, seed, per_shape=2):
     return out
 
 
-def dag_float_data_instances(tier, seed, per_shape=1):
+def dag_float_data_instances(tier, seed, per_shape=3):
     """conserving flows with non-dyadic float values: superpositions of routes with weights from {0.1, 0.7, 0.3}, the arc value
     being the float sum in route order; kept only if the library's own (exact) conservation test accepts it (that test defines
     the domain of the flow-decomposition classes)"""
     q = tier == "quick"
     out = []
-    wsets = [(0.1, 0.7), (0.7, 0.1), (0.3, 0.1, 0.7)]
+    wsets = [(0.1, 0.7), (0.7, 0.1), (0.3, 0.1, 0.7), (0.9, 0.6, 0.4), (1.6, 0.3, 0.2), (0.9, 0.5, 0.5), (0.4, 0.1, 0.2), (0.6, 0.9), (0.2, 1.6, 0.3, 0.9)]
     for idx, shp in enumerate(world.dag_shapes(5)):
         if len(shp[1]) > (5 if q else 6) or len(shp[1]) < 3:
             continue
@@ -98,6 +98,28 @@ def dag_float_data_instances(tier, seed, per_shape=1):
             got += 1
             if got >= per_shape:
                 break
+    # a star a0,a1,a2 -> m -> x0,x1,x2 carrying three straight-through routes: the in- and out-values of m are the same numbers in
+    # another order (float addition is not associative: (0.1+0.4)+0.2 != (0.2+0.1)+0.4, yet the flow is exactly conserving)
+    for ws0 in [(0.1, 0.4, 0.2), (0.3, 0.1, 0.7), (0.9, 0.6, 0.4)]:
+        for perm in itertools.permutations(range(3)):
+            arcs_ = [[f"a{i}", "m", ws0[i]] for i in range(3)] + [["m", f"x{j}", ws0[perm[j]]] for j in range(3)]
+            out.append({"fam": "dag", "nodes": ["a0", "a1", "a2", "m", "x0", "x1", "x2"], "arcs": arcs_, "float_data": True, "n_routes": 3, "star33": True})
+    # the named 6-node 'kite' (three routes): every weight triple in every order
+    kite = [x for x in world.named_dag_shapes() if x[0] == 6 and len(x[1]) == 7]
+    for shp in kite:
+        names, arcs = world.present(shp, seed, 510)
+        g, paths = fdworld.dag_routes(names, arcs)
+        pa = [O.path_arcs(p) for p in paths]
+        for ws0 in [w for w in wsets if len(w) == 3]:
+          for sel in itertools.combinations(pa, 3):
+            if set(e for p_ in sel for e in p_) != set(arcs):
+                continue
+            for ws in sorted(set(itertools.permutations(ws0))):
+                f = {e: 0.0 for e in arcs}
+                for p_, w in zip(sel, ws):
+                    for e in p_:
+                        f[e] = f[e] + w
+                out.append({"fam": "dag", "nodes": names, "arcs": [[u, v, f[(u, v)]] for (u, v) in arcs], "float_data": True, "n_routes": len(ws), "kite": True})
     return out
 
 
